@@ -14,7 +14,7 @@ Theorem C12_get_nil_fails_with_span : forall a g span r, a_ops a = r ++ [VNil] -
   exec_d (DUnwrap span) a g = SFail (E_unwrap_nil span).
 Proof. exact unwrap_nil_fails_with_span. Qed.
 Theorem C12_unwrap_into_flag : forall a g n r v g', a_ops a = r ++ [v] -> (forall w, v <> VSome w) ->
-  bind_local g n v = Some g' ->
+  store_var g n v = Some g' ->
   exec_d (DUnwrapInto n) a g = SNext (set_ops a (r ++ [VBool (match v with VNil => false | _ => true end)])) g'.
 Proof. exact unwrap_into_flag. Qed.
 Theorem C12_equals_nil_iff : forall v, val_equals 100 v VNil = Some (match v with VNil => true | _ => false end).
